@@ -9,8 +9,10 @@ import (
 	"io"
 	"math/rand/v2"
 	"net"
+	"os/signal"
 	"sync"
 	"sync/atomic"
+	"syscall"
 	"time"
 
 	"verif/harness/lib"
@@ -103,7 +105,7 @@ func makeAR(rng *rand.Rand, cas []acctItem, tag string) []byte {
 // opKinds for evidence.
 var acctOps = []string{"put", "put", "put", "put", "put-ac", "put-raw", "get", "get-unknown", "getzstd", "put", "put-badhash", "put-short", "put-long", "put-readerr", "put-toolarge", "put-ac", "put-raw",
 	"get", "get-unknown", "get-partial", "getzstd", "contains", "findmissing", "getvalidated", "proxyfetch-ok", "proxyfetch-fail", "put-zero",
-	"proxyfetch-ac", "proxyfetch-raw", "restart", "overwrite-tail", "overwrite-tail", "put-zero"}
+	"proxyfetch-ac", "proxyfetch-raw", "restart", "overwrite-tail", "overwrite-tail", "put-zero", "put-writeerr", "put-writeerr"}
 
 func (w *acctWorld) step(rng *rand.Rand, concurrent bool) {
 	ctx := context.Background()
@@ -155,6 +157,31 @@ func (w *acctWorld) step(rng *rand.Rand, concurrent bool) {
 		var err error
 		rd := &errAfterReader{data: it.content, fail: rng.IntN(len(it.content) + 1)}
 		track(size, func() { err = w.c.Put(ctx, cache.CAS, it.hash, size, rd) })
+		if err != nil {
+			outcome = "err"
+		}
+	case "put-writeerr":
+		// the file system refuses the write part-way: the process's file size limit (RLIMIT_FSIZE, soft) is lowered
+		// below what the upload needs for the duration of this one call, so write(2) fails with EFBIG at that offset.
+		// Process-wide, therefore only in sequential disk-API histories.
+		if concurrent || w.srv != nil || size < 2 {
+			return
+		}
+		kind, key, val := cache.CAS, it.hash, it.content
+		if rng.IntN(3) == 0 {
+			kind, key, val = []cache.EntryKind{cache.AC, cache.RAW}[rng.IntN(2)], w.acKeys[rng.IntN(len(w.acKeys))], makeAR(rng, w.cas, w.caseID)
+			if len(val) < 2 {
+				return
+			}
+		}
+		limit := uint64(1 + rng.IntN(len(val)-1))
+		var err error
+		restore, ok := lowerFileSizeLimit(limit)
+		if !ok {
+			return
+		}
+		track(int64(len(val)), func() { err = w.c.Put(ctx, kind, key, int64(len(val)), bytes.NewReader(val)) })
+		restore()
 		if err != nil {
 			outcome = "err"
 		}
@@ -413,6 +440,22 @@ func (w *acctWorld) restart(rng *rand.Rand) string {
 	w.c, w.opts, w.storage, w.max = c, o, o.Storage, o.MaxSize
 	w.restarts++
 	return res
+}
+
+var ignoreXFSZ sync.Once
+
+// lowerFileSizeLimit sets the soft RLIMIT_FSIZE of this process to limit bytes and returns the function that restores
+// it. SIGXFSZ (sent along with the EFBIG error) is ignored for the lifetime of the process.
+func lowerFileSizeLimit(limit uint64) (func(), bool) {
+	ignoreXFSZ.Do(func() { signal.Ignore(syscall.SIGXFSZ) })
+	var old syscall.Rlimit
+	if err := syscall.Getrlimit(syscall.RLIMIT_FSIZE, &old); err != nil {
+		return nil, false
+	}
+	if err := syscall.Setrlimit(syscall.RLIMIT_FSIZE, &syscall.Rlimit{Cur: limit, Max: old.Max}); err != nil {
+		return nil, false
+	}
+	return func() { _ = syscall.Setrlimit(syscall.RLIMIT_FSIZE, &old) }, true
 }
 
 // serverStep drives the same cache through the HTTP and gRPC front ends,
